@@ -39,7 +39,7 @@ In == Call.input
 Avail == Call.avail
 Where == [trace |-> Call.id, file |-> fi]
 
-ModeOf(api) == CASE api \in {"decode", "chained"} -> "full"
+ModeOf(api) == CASE api \in {"decode", "chained", "encode"} -> "full"
                  [] api = "integrity" -> "crc"
                  [] api \in {"integrity_hdr", "header", "header_method"} -> "header"
                  [] api = "header_fileid" -> "fileid"
@@ -53,12 +53,40 @@ ListToFun(lst) == [s \in { lst[i][1] : i \in DOMAIN lst } |-> lst[CHOOSE i \in D
 \* values the current code is known to produce for the accumulated fields.
 ImplD12(raw) == (raw.b1 \div 16) + ((raw.b2 * 16) % 256)
 
+\* Encode: the value on the wire (w) against the value in the File (f).
+\* Arrays are padded with invalid elements up to the profile length and cut
+\* at it; strings are cut to the profile length - 1 at a character boundary.
+PFBySindex(m, s) == LET ns == { n \in DOMAIN FieldTab[m] : FieldTab[m][n].s = s } IN FieldTab[m][CHOOSE n \in ns : TRUE]
+RECURSIVE StripInv(_, _, _)
+StripInv(v, w, inv) == IF Len(v) >= w /\ SubSeq(v, Len(v) - w + 1, Len(v)) = inv THEN StripInv(SubSeq(v, 1, Len(v) - w), w, inv) ELSE v
+EncFieldEq(m, s, w, f) ==
+    LET p == PFBySindex(m, s) IN
+    IF w[1] = -3 THEN FieldEq(w, f)
+    ELSE IF p.k # 0 THEN w = f
+    ELSE IF p.b = 7 /\ p.a = 0
+         THEN /\ Len(w) <= Len(f) /\ SubSeq(f, 1, Len(w)) = w
+              /\ (Len(w) = Len(f) \/ (Len(w) <= p.l - 1 /\ Len(w) >= p.l - 4))
+    ELSE IF p.a = 1 /\ p.b # 7
+         THEN LET es == SizeOf(p.b)
+                  cut == IF Len(f) > es * p.l THEN SubSeq(f, 1, es * p.l) ELSE f
+              IN StripInv(w, es, InvalidOf(p.b)) = StripInv(cut, es, InvalidOf(p.b))
+    ELSE w = f
+\* on the wire but not in the File: only padding of an absent array / an all-invalid array
+EncAbsentOk(m, s, w) ==
+    LET p == PFBySindex(m, s) IN
+    p.k = 0 /\ p.a = 1 /\ p.b # 7 /\ StripInv(w, SizeOf(p.b), InvalidOf(p.b)) = << >>
+
+\* in the File but not on the wire: a string cut down to nothing by a very short field
+EncMissingOk(m, s) == LET p == PFBySindex(m, s) IN p.k = 0 /\ p.a = 0 /\ p.b = 7 /\ p.l <= 4
+
 CompareMsg(where, m, spec, skip, obs, raw, ga, la) ==
     LET of == ListToFun(obs.f)
         keys == (DOMAIN spec \cup DOMAIN of) \ skip
         \* a wall-clock-only local time of 0 may be reported as the (absent) base time
-        ok(s) == IF s \in DOMAIN spec /\ s \in DOMAIN of THEN FieldEq(spec[s], of[s])
-                 ELSE s \in DOMAIN spec /\ spec[s] = WallOnly(Zero4)
+        ok(s) == IF s \in DOMAIN spec /\ s \in DOMAIN of
+                 THEN (IF dec.enc THEN EncFieldEq(m, s, spec[s], of[s]) ELSE FieldEq(spec[s], of[s]))
+                 ELSE IF s \in DOMAIN spec THEN spec[s] = WallOnly(Zero4) \/ (dec.enc /\ EncAbsentOk(m, s, spec[s]))
+                 ELSE dec.enc /\ EncMissingOk(m, s)
         bad == { s \in keys : ~ok(s) }
         kf(s) == IF m # 20 \/ s \notin DOMAIN of \/ s \notin DOMAIN spec THEN << >>
                  ELSE IF s = S(20, 5) /\ raw.csd /\ of[s] = ga.dist.a
@@ -82,7 +110,7 @@ CompareOut(o, ga, la) ==
       [] OTHER -> TRUE
 
 TInit == /\ ti = 1 /\ fi = 1
-         /\ dec = InitDec(0, ModeOf(Traces[1].api))
+         /\ dec = InitDec(0, ModeOf(Traces[1].api), Traces[1].api = "encode")
          /\ frames = << >>
          /\ gacc = AccsZero /\ lacc = AccsZero /\ g0 = AccsZero
 
@@ -132,7 +160,7 @@ Within(l, f, klen) ==
 
 CompareFile(final) ==
     LET o == Obs  w == Where IN
-    /\ IF HdrEq(dec.hdr, o.hdr) THEN TRUE ELSE Note(w @@ [what |-> "file header", expected |-> dec.hdr, observed |-> o.hdr])
+    /\ IF Call.api = "encode" \/ HdrEq(dec.hdr, o.hdr) THEN TRUE ELSE Note(w @@ [what |-> "file header", expected |-> dec.hdr, observed |-> o.hdr])
     /\ IF dec.mode # "full" \/ dec.fileids = 0 THEN TRUE
        ELSE
        \* which file_id is reported when a stream carries several is not pinned;
@@ -143,7 +171,13 @@ CompareFile(final) ==
        \* compared, even if the frame must be rejected for its checksum
        /\ IF dec.verdict = "either" THEN TRUE
           ELSE
-          /\ IF final = "accept" /\ o.crc # dec.filecrc THEN Note(w @@ [what |-> "file crc field", expected |-> dec.filecrc, observed |-> o.crc]) ELSE TRUE
+          /\ IF Call.api = "encode" /\ final = "accept" THEN
+                 /\ IF Call.post.hdr.datasize = dec.hdr.datasize THEN TRUE ELSE Note(w @@ [what |-> "File.Header.DataSize after Encode", expected |-> dec.hdr.datasize, observed |-> Call.post.hdr.datasize])
+                 /\ IF dec.hdr.size = 12 \/ Call.post.hdr.crc = dec.hdr.crc THEN TRUE ELSE Note(w @@ [what |-> "File.Header.CRC after Encode", expected |-> dec.hdr.crc, observed |-> Call.post.hdr.crc])
+                 /\ IF Call.post.crc = dec.filecrc THEN TRUE ELSE Note(w @@ [what |-> "File.CRC after Encode", expected |-> dec.filecrc, observed |-> Call.post.crc])
+                 /\ IF dec.hdr.size = 12 \/ dec.hdr.crc # 0 THEN TRUE ELSE Note(w @@ [what |-> "header CRC not written"])
+             ELSE TRUE
+          /\ IF Call.api # "encode" /\ final = "accept" /\ o.crc # dec.filecrc THEN Note(w @@ [what |-> "file crc field", expected |-> dec.filecrc, observed |-> o.crc]) ELSE TRUE
           /\ IF dec.hascreator = (Len(o.creator) = 1) THEN TRUE ELSE Note(w @@ [what |-> "file_creator presence"])
           /\ IF dec.hascreator /\ Len(o.creator) = 1 THEN CompareMsg(w @@ [slot |-> "FileCreator"], MFileCreator, dec.creator, dec.creatorskip, o.creator[1], [csd |-> FALSE], gacc, lacc) ELSE TRUE
           /\ IF dec.hastc = (Len(o.tc) = 1) THEN TRUE ELSE Note(w @@ [what |-> "timestamp_correlation presence"])
@@ -177,7 +211,7 @@ ReadsOK(reads, frs) ==
                 ok |-> st.ok /\ (inside = {} \/ \A i \in inside : st.f + r[1] <= frs[i][2])],
              [f |-> 0, ok |-> TRUE], reads).ok
 
-NextDec == IF ti + 1 <= Len(Traces) THEN InitDec(0, ModeOf(Traces[ti + 1].api)) ELSE dec
+NextDec == IF ti + 1 <= Len(Traces) THEN InitDec(0, ModeOf(Traces[ti + 1].api), Traces[ti + 1].api = "encode") ELSE dec
 
 \* end of the call: verdict against the observed return
 CloseCall(final, frs, chainEnd) ==
@@ -185,7 +219,7 @@ CloseCall(final, frs, chainEnd) ==
     /\ CASE chainEnd -> IF Call.ret.err = 0 THEN TRUE ELSE Note(Where @@ [what |-> "verdict", expected |-> "no error (clean end of chain)", observed |-> "error"])
          [] final = "accept" /\ ~chainEnd ->
               /\ IF Call.ret.err = 0 THEN TRUE ELSE Note(Where @@ [what |-> "verdict", expected |-> "accept", why |-> dec.why, observed |-> "error"])
-              /\ IF dec.mode \in {"full", "crc"} /\ Call.ret.err = 0 /\ Call.ret.consumed # FrameEnd(dec)
+              /\ IF Call.api # "encode" /\ dec.mode \in {"full", "crc"} /\ Call.ret.err = 0 /\ Call.ret.consumed # FrameEnd(dec)
                  THEN Note(Where @@ [what |-> "bytes consumed", expected |-> FrameEnd(dec), observed |-> Call.ret.consumed]) ELSE TRUE
          [] final = "reject" /\ ~chainEnd -> IF Call.ret.err = 1 THEN TRUE ELSE Note(Where @@ [what |-> "verdict", expected |-> "reject", why |-> dec.why, observed |-> "no error"])
          [] OTHER -> TRUE
@@ -218,7 +252,7 @@ FinishFile ==
           ELSE TRUE
        /\ IF Call.api = "chained" /\ final = "accept"
           THEN /\ ti' = ti /\ fi' = fi + 1 /\ frames' = frs
-               /\ dec' = InitDec(FrameEnd(dec), "full")
+               /\ dec' = InitDec(FrameEnd(dec), "full", FALSE)
                /\ lacc' = AccsZero /\ g0' = gacc /\ gacc' = gacc
           ELSE CloseCall(final, frs, FALSE)
 
